@@ -30,7 +30,9 @@ RULE = (
     "third thread) runs to completion inside A's p-th point (all one-preemption schedules with the "
     "preempting thread run to completion), plus seeded two-window schedules (A paused at p, B paused at q, "
     "A finishes, B finishes) and seeded multi-segment schedules over three threads; yield points: every "
-    "line of jaxtyping/_storage.py (quick), every line of every jaxtyping source file (thorough); "
+    "line of jaxtyping/_storage.py and of _check_dims / _check_shape (quick), every line of every jaxtyping source "
+    "file (thorough); checks outside every context included (they must start from empty bindings); a sample of the "
+    "schedules again with every worker running inside a copy of one contextvars context; "
     "non-trivial = the preemption lands while the preempted thread holds a context, a '?' label or "
     "flatten mode; distinct by (workload set, schedule)"
 )
@@ -41,6 +43,15 @@ TRUSTED = [
 ]
 
 P = {"op": "print"}
+def scope_free(s):
+    """checks outside every context: each starts from empty bindings, so `n n` accepts (s, s) and rejects
+    (s, s + 1) whatever other threads do in the meantime"""
+    return [{"op": "check", "l": arr_type("n n"), "x": arr_val([s, s])}, {"op": "check", "l": arr_type("n n"), "x": arr_val([s, s + 1])},
+            {"op": "check", "l": arr_type("n *v n"), "x": arr_val([s, 9, s])},
+            {"op": "check", "l": {"t": "pytree", "l": arr_type("m"), "s": None}, "x": {"t": "tuple", "xs": [arr_val([s]), arr_val([s + 1])]}},
+            {"op": "check", "l": {"t": "pytree", "l": arr_type("m"), "s": None}, "x": {"t": "tuple", "xs": [arr_val([s]), arr_val([s])]}}]
+
+
 WRONG_DTYPE = {"op": "check", "l": arr_type("k", cat="Float"), "x": arr_val([2], dtype="int32")}          # F unless flatten mode leaks
 QMARK_OUTSIDE = {"op": "check", "l": arr_type("?q"), "x": arr_val([2])}                                 # ANN unless a '?' label leaks
 
@@ -55,7 +66,7 @@ def workload(i):
     q = arr_type("?n")
     custom = {"t": "custom", "tag": "Node", "fault": None, "xs": [arr_val([s]), {"t": "list", "xs": [arr_val([s + 1])]}]}
     if i % 3 == 0:
-        return [
+        return scope_free(s) + [
             WRONG_DTYPE, QMARK_OUTSIDE,
             {"op": "ctx", "exit": "ret", "body": [
                 {"op": "check", "l": arr_type("a b"), "x": arr_val([s, 7])}, P,
@@ -79,7 +90,7 @@ def workload(i):
             {"op": "call", "kind": "new", "params": bad, "ret": None, "bindok": True, "notc": False, "exit": "ret", "body": [P]},
             {"op": "call", "kind": "old", "params": params, "ret": None, "bindok": True, "notc": False, "exit": "base", "body": [P, QMARK_OUTSIDE]},
             P, QMARK_OUTSIDE, WRONG_DTYPE,
-        ]
+        ] + scope_free(s)
     lt = {"t": "union", "ts": [INT, q]}
     return [
         {"op": "ctx", "exit": "ret", "body": [
@@ -92,7 +103,7 @@ def workload(i):
             {"op": "check", "l": arr_type("*w a"), "x": arr_val([9, 9, s])}, P,
         ]},
         WRONG_DTYPE, QMARK_OUTSIDE, P,
-    ]
+    ] + scope_free(s)
 
 
 def runner(prog):
@@ -109,8 +120,26 @@ def files_for(tier):
     return [os.path.join(root, "_storage.py")]
 
 
+def functions_for(tier):
+    """quick tier: besides every line of _storage.py, the lines of the two functions that read and write the
+    binding dictionaries between two storage accesses"""
+    if tier == "thorough":
+        return {}
+    return {os.path.join(REPO, "jaxtyping", "_array_types.py"): {"_check_dims", "_check_shape"}}
+
+
+_MODE = {"functions": {}, "contexts": False}
+
+
 def run_schedule(files, progs, schedule):
-    sch = Scheduler(files, [runner(p) for p in progs], schedule)
+    ctxs = None
+    if _MODE["contexts"]:
+        # every worker runs in a copy of a context in which jaxtyping has already been used once
+        import contextvars
+
+        impl_prog.run_program([{"op": "ctx", "body": [{"op": "check", "l": arr_type("z"), "x": arr_val([1])}], "exit": "ret"}], "typeguard", None)
+        ctxs = [contextvars.copy_context() for _ in progs]
+    sch = Scheduler(files, [runner(p) for p in progs], schedule, functions=_MODE["functions"], contexts=ctxs)
     res = sch.run()
     if sch.failed:
         raise InfraError("scheduler: " + sch.failed)
@@ -151,6 +180,8 @@ def run(tier, seed, out, drv, facts):
     rng = Rng(seed, "C06")
     thorough = tier == "thorough"
     files = files_for(tier)
+    _MODE["functions"] = functions_for(tier)
+    _MODE["contexts"] = False
     sets = [("w0w1w2", [workload(0), workload(1), workload(2)])]
     if thorough:
         sets += [("w0w1", [workload(0), workload(1)]), ("w0w2", [workload(0), workload(2)]), ("w1w2", [workload(1), workload(2)]), ("w3w4w5", [workload(3), workload(4), workload(5)])]
@@ -202,6 +233,13 @@ def run(tier, seed, out, drv, facts):
                     segs.append((t, rng.rng(1, max(2, npoints[t] // 3))))
                 extra.append(segs)
         explore(out, files, progs, solo, extra, tag + "+", npoints)
+        # (4) the same threads started with context propagation (every worker inside a copy of one contextvars
+        #     context that has already used jaxtyping): a sample of the one-preemption schedules
+        _MODE["contexts"] = True
+        try:
+            explore(out, files, progs, solo, rng.sample(schedules, min(len(schedules), 300 if thorough else 60)), tag + "@ctx", npoints)
+        finally:
+            _MODE["contexts"] = False
 
 
 def replay(rep, out, drv, facts):
